@@ -382,6 +382,15 @@ pub fn gen_tilejson(rng: &mut Rng, format: TileFormat) -> String {
 	if rng.chance(0.4) {
 		parts.push("\"description\":\"line1\\nline2 \\u00e4\\u20ac\"".to_string());
 	}
+	if rng.chance(0.25) {
+		// free-form string fields whose names collide with what containers keep in their own metadata
+		// (MBTiles `format` / `type` / `json` rows, PMTiles header fields): they are data, not declarations
+		for (k, vals) in [("format", &["png", "jpeg", "pbf", "webp", "bin"][..]), ("type", &["overlay", "baselayer"][..]), ("compression", &["gzip", "none"][..]), ("json", &["x"][..]), ("scheme", &["xyz", "tms"][..])] {
+			if rng.chance(0.5) {
+				parts.push(format!("\"{k}\":\"{}\"", rng.pick(vals)));
+			}
+		}
+	}
 	if format == TileFormat::PBF || rng.chance(0.2) {
 		parts.push("\"vector_layers\":[{\"id\":\"roads\",\"fields\":{\"kind\":\"String\",\"lanes\":\"Number\"},\"minzoom\":0,\"maxzoom\":14},{\"id\":\"water\",\"fields\":{}}]".to_string());
 	}
